@@ -1,5 +1,8 @@
-(* C09 - TIFA's initialization / unused-variable diagnoses match the execution paths (branch subset: any nesting,
-   any size).  PARTIAL for loops and function calls: covered by the correspondence run only. *)
+(* C09 - TIFA's initialization / unused-variable diagnoses match the execution paths: EXACT on the branch subset (any
+   nesting, any size); SOUND for while loops (any nesting, any number of iterations).  for loops and function calls:
+   covered by the correspondence run only (for over an empty iterable is a known finding). *)
+
+
 From Coq Require Import List Bool Arith.
 Import ListNotations.
 From Pedal Require Import model.C09_Tifa proof.C09_Lemmas.
@@ -27,3 +30,16 @@ Theorem C09_every_execution_is_collected :
   forall b ch c' ch', p_block b cempty ch = Some (c', ch') -> In c' (fst (s_block b [cempty])).
 Proof. exact every_execution_is_collected. Qed.
 Print Assumptions C09_every_execution_is_collected.
+
+(* loops: no missed uninitialised read for `while`, any nesting, any number of iterations.
+   [RelB n real analysed]: the same program with every loop run up to n times (real) and analysed once, the way
+   visit_While does (model/C09_Tifa.v: unroll, once).  Every read that is unassigned on some real execution is
+   reported by TIFA at that line for that variable. *)
+From Pedal Require Import proof.C09_While.
+
+Theorem C09_while_no_missed_uninitialised_read :
+  forall n b b1, RelB n b b1 ->
+  forall i, In i (snd (s_block b [cempty])) ->
+  exists j, In j (snd (t_block b1 aempty)) /\ site j = site i.
+Proof. exact while_no_missed_uninitialised_read. Qed.
+Print Assumptions C09_while_no_missed_uninitialised_read.
